@@ -151,14 +151,21 @@ def fd_scenario(chk, label, kind, outcomes, explicit):
     zero = kind.endswith("zero-prob")
     if zero:
         del free0["probs_value"]             # concrete prior probabilities (one of them exactly zero), scale and data symbolic
-    outs = [float(o) for o in outcomes] if explicit else ([0.0, 1.0] if kind == "Bernoulli" else [float(o) for o in sorted(outcomes)])
+    outs = [float(o) for o in outcomes] if explicit else ([0.0, 1.0] if kind.startswith("Bernoulli") else [float(o) for o in sorted(outcomes)])
     dt = np.asarray(model.vars["k"].value).dtype
     if any(float(o) != int(o) for o in outs):
         dt = np.dtype(np.float32)            # fractional outcomes are assigned as they are, whatever the variable was initialised with
 
+    used = kind.endswith("used")
+
     def f(key, fv):
         st = iface.update_state(fv, full0)
         with stub_categorical():
+            if used:
+                # the kernel has been used before, at another model state (other scale, other current value of the variable): nothing of that
+                # call may survive into this one
+                other = iface.update_state({**{k_: v_ + 0.75 for k_, v_ in fv.items() if k_ == "s_value"}, "k": jnp.asarray(outs[-1], dtype=dt)}, full0)
+                kern._transition_fn(jax.random.fold_in(key, 7), other)
             pos = kern._transition_fn(key, st)
         lps = [iface.log_prob(iface.update_state({"k": jnp.asarray(o, dtype=dt)}, st)) for o in outs]
         return dict(draw=pos["k"], lps=lps)
@@ -178,9 +185,9 @@ def fd_scenario(chk, label, kind, outcomes, explicit):
         return isinstance(x, NonFinite) and x.x == float("-inf")
 
     def g_logits(V):
-        if V.ncalls("categorical") != 1:
+        if V.ncalls("categorical") != (2 if used else 1):
             return hyps, z3.BoolVal(False)
-        a_, o_ = V.call("categorical")
+        a_, o_ = V.call("categorical", 1 if used else 0)
         logits = cells(a_[-1])
         if len(logits) != len(outs):
             return hyps, z3.BoolVal(False)
@@ -225,7 +232,7 @@ def fd_scenario(chk, label, kind, outcomes, explicit):
                           "(draw probabilities proportional to the joint density as a function of the variable alone)", [enc], g_logits, signature=f"fd:{label}:logits", timeout_s=120, **(dict(replay=replay_zero) if zero else {})))
 
     def g_draw(V):
-        a_, o_ = V.call("categorical")
+        a_, o_ = V.call("categorical", 1 if used else 0)
         idx = cells(o_[0])[0]
         d = cells(V.out["draw"])[0]
         return hyps + [idx >= 0, idx < len(outs)], z3.And(*[z3.Implies(idx == j, d == z3.RealVal(repr(float(outs[j]))) if not z3.is_int(d) else (d == int(outs[j]) if float(outs[j]) == int(outs[j]) else z3.BoolVal(False)))
@@ -267,7 +274,8 @@ def main():
            ("Bernoulli outcomes=[1,0]", "Bernoulli", (1, 0), True), ("FiniteDiscrete outcomes=[2,0,1]", "FiniteDiscrete", (2.0, 0.0, 1.0), True),
            ("FiniteDiscrete{0,.5,1,1.5}, variable initialised with an integer", "FiniteDiscrete/int-initialised", (0.0, 0.5, 1.0, 1.5), False),
            ("FiniteDiscrete{0,1,2} whose second outcome has prior probability exactly zero (extended reals)", "FiniteDiscrete/zero-prob", (0.0, 1.0, 2.0), False),
-           ("FiniteDiscrete{0,1,2}, a downstream node feeding location and scale of the response", "FiniteDiscrete/shared", (0.0, 1.0, 2.0), False)]
+           ("FiniteDiscrete{0,1,2}, a downstream node feeding location and scale of the response", "FiniteDiscrete/shared", (0.0, 1.0, 2.0), False),
+           ("Bernoulli from prior, kernel used before at another model state", "Bernoulli/used", (0, 1), False)]
     if chk.tier == "quick":
         fds = fds[:3] + fds[4:]
     for label, kind, outcomes, explicit in fds:
